@@ -191,6 +191,50 @@ fn run(c: &mut Ctx) {
             }
         }
     }
+    // adjacency: an identification squitter directly followed (next line, another aircraft) by one whose callsign
+    // differs in exactly one character position
+    {
+        let n = c.tier.pick(400usize, 4000usize);
+        let seeds = c.draw(n, (gen::chars8_valid(), 0usize..8, prop_oneof![1u8..=26, 48u8..=57], 1u32..=4, 0u32..8, any::<bool>(), any::<bool>()));
+        let mine: Vec<_> = seeds.into_iter().enumerate().filter(|(i, _)| c.mine(*i as u64)).collect();
+        for chunk in mine.chunks(200) {
+            for u in [false, true] {
+                let mut lines = Vec::new();
+                let mut expect = Vec::new();
+                for (i, (chars, pos, ch, tc, ca, bds, _)) in chunk {
+                    let a1 = 0x100000 | *i as u32;
+                    let a2 = 0x200000 | *i as u32;
+                    let mut other = *chars;
+                    other[*pos] = if other[*pos] == *ch { if *ch == 1 { 2 } else { 1 } } else { *ch };
+                    lines.push(bits::df11(a1, 5, 0).hex());
+                    lines.push(bits::df11(a2, 5, 0).hex());
+                    if *bds {
+                        lines.push(bits::df20(a1, bits::ac13_q1(1000), gen::mb20(*chars), 0).hex());
+                        lines.push(bits::df21(a2, 0, gen::mb20(other), 0).hex());
+                    } else {
+                        lines.push(bits::es(17, 5, a1, bits::me_ident(*tc, *ca, *chars)).hex());
+                        lines.push(bits::es(17, 5, a2, bits::me_ident(*tc, *ca, other)).hex());
+                    }
+                    expect.push((a1, callsign(chars)));
+                    expect.push((a2, callsign(&other)));
+                }
+                let t = run::new_table();
+                if let Err(e) = run::run_lines(&Opts::quiet().with_u(u), &t, &lines) {
+                    c.fail(format!("reader failed: {:?}", e), "c07:ident", json!({"kind":"none"}));
+                    return;
+                }
+                let snap = run::snapshot(&t);
+                c.eval(expect.len() as u64);
+                c.class_n("one_character_neighbour_pairs", (expect.len() / 2) as u64);
+                for (a, want) in &expect {
+                    let got = snap.get(a).and_then(|r| r.ais.clone()).unwrap_or_default();
+                    if &got != want && !c.failed() {
+                        c.fail(format!("callsign of {:06X} is {:?}, expected {:?} (its frame arrived directly after a frame of another aircraft whose callsign differs in one character)", a, got, want), "c07:adjacent", json!({"kind":"lines","u":u,"lines":lines,"addr":a,"want":want}));
+                    }
+                }
+            }
+        }
+    }
     // generated strings
     let cases = c.tier.pick(30_000, 400_000);
     let strat = (gen::opts_ur(), gen::addr(), 1u32..=4, 0u32..8, 0u32..8, proptest::array::uniform8(0u8..64), any::<bool>(), any::<bool>()).prop_map(|(opts, addr, tc, ca, hdr_ca, chars, update, same)| Ident { opts, addr, tc, ca, hdr_ca, chars, update, df18: false, same_callsign_before: same });
@@ -209,7 +253,7 @@ fn run(c: &mut Ctx) {
     }
     // (b) BDS 2,0
     let cases = c.tier.pick(30_000, 400_000);
-    let strat = (gen::opts_ur(), gen::addr(), prop_oneof![1 => Just(None), 4 => (0u32..8).prop_map(Some)], any::<bool>(), 0u32..8192, gen::chars8()).prop_map(|(opts, addr, gate_ca, df21, code13, chars)| B20 { opts, addr, gate_ca, df21, code13, chars });
+    let strat = (gen::opts_ur(), gen::addr(), prop_oneof![1 => Just(None), 4 => (0u32..8).prop_map(Some)], any::<bool>(), 0u32..8192, prop_oneof![10 => gen::chars8(), 1 => Just([32u8; 8]), 1 => Just([0u8; 8]), 1 => proptest::array::uniform8(prop_oneof![Just(32u8), Just(0u8), Just(63u8), Just(27u8)])]).prop_map(|(opts, addr, gate_ca, df21, code13, chars)| B20 { opts, addr, gate_ca, df21, code13, chars });
     let r = c.proptest(cases, strat, |c, b, counting| {
         let open = check_b20(b)?;
         if counting {
@@ -234,6 +278,17 @@ fn run(c: &mut Ctx) {
 fn replay(c: &mut Ctx, case: &Value) {
     c.eval(1);
     match case["kind"].as_str() {
+        Some("lines") => {
+            let lines: Vec<String> = serde_json::from_value(case["lines"].clone()).unwrap_or_default();
+            let t = run::new_table();
+            let _ = run::run_lines(&Opts::quiet().with_u(case["u"].as_bool().unwrap_or(false)), &t, &lines);
+            let a = case["addr"].as_u64().unwrap_or(0) as u32;
+            let want = case["want"].as_str().unwrap_or("");
+            let got = run::snapshot(&t).get(&a).and_then(|r| r.ais.clone()).unwrap_or_default();
+            if got != want {
+                c.fail(format!("callsign of {:06X} is {:?}, expected {:?}", a, got, want), "c07:adjacent", case.clone());
+            }
+        }
         Some("b20") => {
             let Ok(b) = serde_json::from_value::<B20>(case["b"].clone()) else { return c.inconclusive("bad replay") };
             if let Err(m) = check_b20(&b) {
